@@ -125,12 +125,26 @@ pub fn arb_c07_srv() -> BoxedStrategy<C07Srv> {
                 .prop_flat_map(move |(stream, finish, fail_write_at)| {
                     let units = units.clone();
                     let auth = auth.clone();
+                    // in one configuration of four a further unit id is served by the handler
+                    // instance of the first unit
+                    let aliases: Vec<(u8, u8)> = match units.first() {
+                        Some(first) if select_seed % 4 == 1 => {
+                            let a = 1 + ((select_seed >> 8) % 250) as u8;
+                            if units.iter().any(|u| u.0 == a) {
+                                vec![]
+                            } else {
+                                vec![(a, first.0)]
+                            }
+                        }
+                        _ => vec![],
+                    };
                     arb_partition(stream.len(), vec![0, 7, 8, 15, 260]).prop_map(move |partition| C07Srv {
                         cfg: SrvConfig {
                             framing: fr,
                             units: units.clone(),
                             auth: auth.clone(),
                             decode,
+                            aliases: aliases.clone(),
                         },
                         stream: stream.clone(),
                         partition,
